@@ -201,15 +201,35 @@ theorem good_resolveSymbol {s : St} (h : Good s) (t : String) : Good (s.resolveS
   good_step h (.resolve t) (ok_refs _ (by intro r hr; simp [Op.refs] at hr) trivial)
 
 section
-variable {α : Type}
+variable {α : Type} [FloatLike α]
+
+/-- **The magnitude is the literal that was written**: `int(text)` of an integer literal, or
+    `float(text)` of a decimal literal — what `QuantityTransformer.int` / `.float` return; in
+    particular an `int` is never silently a `float` or a `Decimal`, and the other way round. -/
+def Written (m : Mag α) : Prop :=
+  (∃ (text : String) (i : Int), pyInt text = .ok i ∧ m = .int i) ∨
+  (∃ (text : String) (q : Rat), decimalLiteral text = some q ∧ m = .flt (FloatLike.ofRat q))
+
+theorem Written.notDec {m : Mag α} (h : Written m) : m.isDec = false := by
+  rcases h with ⟨_, _, _, rfl⟩ | ⟨_, _, _, rfl⟩ <;> rfl
+
+/-- an accepted magnitude is an `int` exactly when it is the value of an integer literal -/
+theorem Written.int_iff {m : Mag α} (h : Written m) :
+    m.isInt = true ↔ ∃ (text : String) (i : Int), pyInt text = .ok i ∧ m = .int i := by
+  constructor
+  · intro hi
+    rcases h with h | ⟨_, _, _, rfl⟩
+    · exact h
+    · cases hi
+  · rintro ⟨_, _, _, rfl⟩; rfl
 
 /-- every unit mentioned by a semantic value exists -/
 inductive VOK (s : St) : Val α → Prop
   | tok (t : Tok) : VOK s (.tok t)
   | unit (u : UId) (h : u < s.units.length) : VOK s (.unit u)
   | exp (n : Int) : VOK s (.exp n)
-  | mag (m : Mag α) (hm : m.isDec = false) : VOK s (.mag m)
-  | qty (q : Qty α) (h : q.unit < s.units.length) (hm : q.mag.isDec = false) : VOK s (.qty q)
+  | mag (m : Mag α) (hm : Written m) : VOK s (.mag m)
+  | qty (q : Qty α) (h : q.unit < s.units.length) (hm : Written q.mag) : VOK s (.qty q)
   | tree (name : String) (ch : List (Val α)) (h : ∀ c ∈ ch, VOK s c) : VOK s (.tree name ch)
 
 theorem VOK.mono {s s' : St} (f : Frame s s') : ∀ {v : Val α}, VOK s v → VOK s' v
@@ -379,7 +399,10 @@ theorem actInt_ok : ActOK (actInt (α := α)) := by
   intro s kids h hk
   unfold actInt
   split
-  · exact pureMap_ok s _ _ (fun b s' => .mag _ rfl) h
+  · rename_i t
+    refine ⟨⟨h, fun v hv => ?_⟩, fun s2 _ _ => rfl⟩
+    obtain ⟨b, hb, rfl⟩ := map_ok hv
+    exact .mag _ (Or.inl ⟨t.text, b, hb, rfl⟩)
   · exact ⟨⟨h, fun v hv => by cases hv⟩, fun s2 _ _ => rfl⟩
 
 theorem actFloat_ok : ActOK (actFloat (α := α)) := by
@@ -387,7 +410,8 @@ theorem actFloat_ok : ActOK (actFloat (α := α)) := by
   unfold actFloat
   split
   · split
-    · exact ⟨⟨h, fun v hv => by injection hv with hv; subst hv; exact .mag _ rfl⟩, fun s2 _ _ => rfl⟩
+    · rename_i t _ q hq
+      exact ⟨⟨h, fun v hv => by injection hv with hv; subst hv; exact .mag _ (Or.inr ⟨t.text, q, hq, rfl⟩)⟩, fun s2 _ _ => rfl⟩
     · exact ⟨⟨h, fun v hv => by cases hv⟩, fun s2 _ _ => rfl⟩
   · exact ⟨⟨h, fun v hv => by cases hv⟩, fun s2 _ _ => rfl⟩
 
@@ -476,7 +500,7 @@ theorem actQuantity_ok : ActOK (actQuantity (α := α)) := by
     have hu : u < s.units.length := by
       have := hk (.unit u) (List.mem_cons_of_mem _ List.mem_cons_self)
       cases this with | unit _ hu => exact hu
-    have hm : m.isDec = false := by
+    have hm : Written m := by
       have := hk (.mag m) List.mem_cons_self
       cases this with | mag _ hm => exact hm
     exact ⟨⟨h, fun v hv => by injection hv with hv; subst hv; exact .qty _ hu hm⟩, fun s2 _ _ => rfl⟩
